@@ -35,7 +35,8 @@ def model_to_script(i, ops):
     for op in ops:
         n = op[0]
         if n == "ann":
-            out.append(["ann", op[1], op[2], op[3], op[4], ms(op[5]), op[6], 1 if op[3] == "inv" else 1])
+            variant = sum(1 << (r - 1) for r in op[7]) if op[3] == "inv" else 1
+            out.append(["ann", op[1], op[2], op[3], op[4], ms(op[5]), op[6], variant])
         elif n == "sub":
             out.append(["sub", op[1], sorted(op[2]), ZEROT, MAXT])
         elif n == "vis":
@@ -261,6 +262,16 @@ def run_gossip(ctx, clauses, thorough, model=True):
         elif e["ev"] == "step":
             steps += 1
         where[n] = cur
+    extras = {}
+    for c in tres.cases:
+        for v in c["viol"]:
+            if v["c"].startswith("X_"):
+                # clauses beyond the listed properties: informational
+                e = extras.setdefault(v["c"] + ":" + v["why"], {"count": 0, "first_run": where.get(c["at"]), "op": c["op"]})
+                e["count"] += 1
+    stats["extras_beyond_listed_properties"] = extras
+    if extras:
+        vlib.log(f"EXTRA clauses (routing table; informational, not gating) violated: {list(extras)[:5]}")
     for c in tres.cases:
         for v in c["viol"]:
             if v["c"] in clauses or any(v["c"].startswith(p) for p in clauses if p.endswith("_")):
